@@ -7,6 +7,13 @@ require (
 	github.com/itchyny/gojq v0.0.0
 )
 
-require github.com/itchyny/timefmt-go v0.1.8 // indirect
+require (
+	github.com/clipperhouse/stringish v0.1.1 // indirect
+	github.com/clipperhouse/uax29/v2 v2.3.0 // indirect
+	github.com/itchyny/timefmt-go v0.1.8 // indirect
+	github.com/mattn/go-isatty v0.0.20 // indirect
+	github.com/mattn/go-runewidth v0.0.19 // indirect
+	golang.org/x/sys v0.38.0 // indirect
+)
 
 replace github.com/itchyny/gojq => /repo
